@@ -95,6 +95,43 @@ def load_known(prop):
     data = json.load(open(p))
     return [f for f in data.get('findings', []) if f.get('property') == prop and f.get('status', 'open') == 'open']
 
+
+CLI_COMMANDS = {
+    'C01': ['callVariant'], 'C02': ['callVariant'], 'C03': ['callVariant'], 'C04': ['callVariant', 'callNovelORF', 'callAltTranslation'],
+    'C05': ['callVariant'], 'C06': ['callVariant', 'indexGVF', 'generateIndex'],
+    'C07': ['callVariant', 'parseVEP', 'parseREDItools', 'parseSTARFusion', 'parseArriba', 'parseFusionCatcher', 'parseRMATS', 'parseCIRCexplorer'],
+    'C08': ['callNovelORF'], 'C09': ['callAltTranslation'], 'C10': ['generateIndex', 'updateIndex'], 'C11': ['generateIndex'],
+    'C12': ['generateIndex', 'updateIndex'], 'C13': ['indexGVF'], 'C14': ['parseVEP', 'parseREDItools'],
+    'C15': ['parseSTARFusion', 'parseArriba', 'parseFusionCatcher'], 'C16': ['parseRMATS'], 'C17': ['parseCIRCexplorer'],
+    'C18': ['splitFasta', 'mergeFasta', 'encodeFasta', 'summarizeFasta'], 'C19': ['filterFasta'], 'C20': ['decoyFasta'],
+}
+
+def cli_surface(prop):
+    """harness/lib/clisurface.py on the current source: options the property's commands read but their
+    parsers never define (every run through the real command line reaching the read aborts)."""
+    repo = os.environ.get('VERIF_REPO', '/repo')
+    env = dict(os.environ, PYTHONPATH=repo, PYTHONHASHSEED='0')
+    try:
+        p = subprocess.run(['/venv/bin/python', os.path.join(ROOT, 'harness', 'lib', 'clisurface.py')], env=env,
+                           capture_output=True, text=True, timeout=120, cwd=os.path.join(ROOT, '.work') if os.path.isdir(os.path.join(ROOT, '.work')) else ROOT)
+        data = json.loads(p.stdout.strip().splitlines()[-1])
+    except Exception as e:
+        return [], {'error': repr(e)}
+    out = []
+    for cmd in CLI_COMMANDS.get(prop, []):
+        d = data.get(cmd)
+        if d is None:
+            out.append({'what': 'command %s is no longer registered with the command-line parser' % cmd,
+                        'replay_obj': {'kind': 'cli-surface', 'command': cmd}, 'no_input': True})
+            continue
+        for attr, where in sorted(d.get('gaps', {}).items()):
+            out.append({'what': 'every run of `moPepGen %s` through the real command line that reaches %s aborts with AttributeError: '
+                                'the command reads args.%s, which its argument parser never defines' % (cmd, where, attr),
+                        'replay_obj': {'kind': 'cli-surface', 'command': cmd, 'attribute': attr, 'where': where,
+                                       'how': 'PYTHONPATH=/repo /venv/bin/python harness/lib/clisurface.py'},
+                        'no_input': False})
+    return out, {c: {k: v for k, v in data.get(c, {}).items() if k != 'gaps'} for c in CLI_COMMANDS.get(prop, [])}
+
 class Ctx:
     def __init__(self, prop, tier, seed, build_res):
         self.prop, self.tier, self.seed = prop, tier, seed
@@ -127,7 +164,11 @@ def main():
     res = {}
     if a.replay:
         obj = json.load(open(a.replay))
-        res = mod.replay(ctx, obj)
+        if obj.get('kind') == 'cli-surface':
+            sv, _ = cli_surface(prop)
+            res = {'violations': [v for v in sv if v['replay_obj'].get('command') == obj.get('command')]}
+        else:
+            res = mod.replay(ctx, obj)
         violations = res.get('violations', [])
         obligations = discharged = 0; details = []; broken = []
     else:
@@ -166,6 +207,9 @@ def main():
                                        'replay_obj': {'kind': 'correspondence', 'name': 'corr:%s' % prop, 'error': traceback.format_exc()[-3000:]},
                                        'no_input': True}]}
             violations += res.get('violations', [])
+        sv, sinfo = cli_surface(prop)
+        violations += sv
+        res['cli_surface'] = sinfo
 
     known = load_known(prop)
     known_ids = {f['id'] for f in known}
